@@ -238,7 +238,7 @@ PROPS = {}
 
 
 def items_C06(tier, seed, P):
-    its = graph_items('C06', tier, seed, {'C06'}, wextras=True, with_extra_drops=True)
+    its = graph_items('C06', tier, seed, {'C06'}, wextras=True, with_extra_drops=True) + mult_items('C06', tier, seed, {'C06'}, wextras=True) + history_items('C06', tier, seed, {'C06'})
     for it in its:
         # observe the public counters too
         ops = []
@@ -281,28 +281,32 @@ OUTSIDE = ['N>4 objects', 'more than 2 parallel handles per ordered pair', 'allo
 
 
 def items_C01(tier, seed, P):
-    return graph_items('C01', tier, seed, {'C01'}, opts={'panics_ok': True})
+    o = {'panics_ok': True}
+    return graph_items('C01', tier, seed, {'C01'}, opts=o) + mult_items('C01', tier, seed, {'C01'}, opts=o) + history_items('C01', tier, seed, {'C01'}, opts=o)
 
 
 PROPS['C01'] = dict(items=items_C01, bounds=BOUNDS_GRAPH, outside=OUTSIDE, vacuity=vac_paths(), replay_oracles=['C01'])
 
 
 def items_C02(tier, seed, P):
-    return graph_items('C02', tier, seed, {'C02'}, opts={'panics_ok': True}, wextras=True)
+    o = {'panics_ok': True}
+    return (graph_items('C02', tier, seed, {'C02'}, opts=o, wextras=True) + mult_items('C02', tier, seed, {'C02'}, opts=o, wextras=True)
+            + history_items('C02', tier, seed, {'C02'}, opts=o))
 
 
 PROPS['C02'] = dict(items=items_C02, bounds=BOUNDS_GRAPH, outside=OUTSIDE, vacuity=vac_paths(), replay_oracles=['C02'])
 
 
 def items_C03(tier, seed, P):
-    return graph_items('C03', tier, seed, {'C03'}, recorded_only=False)
+    return graph_items('C03', tier, seed, {'C03'}, recorded_only=False) + mult_items('C03', tier, seed, {'C03'}) + history_items('C03', tier, seed, {'C03'})
 
 
 PROPS['C03'] = dict(items=items_C03, bounds=BOUNDS_GRAPH, outside=OUTSIDE, vacuity=vac_paths(), replay_oracles=['C03'])
 
 
 def items_C08(tier, seed, P):
-    return graph_items('C08', tier, seed, {'C08'}, opts={'panics_ok': True})
+    o = {'panics_ok': True}
+    return graph_items('C08', tier, seed, {'C08'}, opts=o) + mult_items('C08', tier, seed, {'C08'}, opts=o) + history_items('C08', tier, seed, {'C08'}, opts=o)
 
 
 PROPS['C08'] = dict(items=items_C08, bounds=BOUNDS_GRAPH, outside=OUTSIDE, vacuity=vac_paths(), replay_oracles=['C08'])
@@ -692,3 +696,213 @@ def items_C12(tier, seed, P):
 PROPS['C12'] = dict(items=items_C12, bounds={'quick': {'shapes': 'owner/target, ring2, self-clone, chain3, ring3, ring2+tail', 'calls': 'try_unwrap (with/without Weak), make_mut (with/without Weak), get_mut, into_raw/from_raw, increment/decrement_strong_count on every object, optionally after dropping a neighbour; then the remaining handles are dropped in 2 orders', 'counters': 'concrete (the APIs branch on strong==1 / weak==0: every branch is reached structurally)'},
                                              'thorough': {'orders': 'all drop orders', 'layouts': 4}},
                     outside=OUTSIDE, vacuity=vac_paths(), replay_oracles=['C12', 'C08', 'C04'])
+
+
+# ------------------------------------------------------------------ C14 pay-as-you-go
+def items_C14(tier, seed, P):
+    items = []
+
+    def add(name, ops, n, witness=False):
+        items.append(dict(prop='C14', name=name, script={'ops': ops}, sym=True, oracles={'C14'}, opts={'panics_ok': True}, witness=witness,
+                          layouts=std_layouts(n, tier, seed)[:2]))
+    cost_all = lambda h, tag: [{'op': 'cost_clone', 'h': h, 'as': 'cc_' + tag}, {'op': 'cost_drop', 'h': 'cc_' + tag}, {'op': 'cost_drop', 'h': h}]
+    # (a) never adopted, any number of other handles / Weak handles
+    add('never-adopted', [{'op': 'new', 'obj': 0, 'as': 'h0'}, {'op': 'extras', 'h': 'h0', 'n': 'e0'}, {'op': 'wextras', 'h': 'h0', 'n': 'w0'}] + cost_all('h0', 'a'), 1)
+    # (b) adopted m times and fully unadopted again
+    for m in (1, 2) if tier == 'quick' else (1, 2, 3):
+        for extra_unadopt in (0, 1):
+            ops = [{'op': 'new', 'obj': 0, 'as': 'h0'}, {'op': 'new', 'obj': 1, 'as': 'h1'}, {'op': 'extras', 'h': 'h0', 'n': 'e0'}, {'op': 'extras', 'h': 'h1', 'n': 'e1'}]
+            for k in range(m):
+                ops += [{'op': 'clone', 'h': 'h1', 'as': 't%d' % k}, {'op': 'adopt', 'a': 'h0', 'b': 't%d' % k}, {'op': 'store', 'via': 'h0', 'h': 't%d' % k}]
+            for k in range(m):
+                ops += [{'op': 'take', 'via': 'h0', 'slot': 0, 'as': 'u%d' % k}, {'op': 'unadopt', 'a': 'h0', 'b': 'u%d' % k}]
+            for k in range(extra_unadopt):
+                ops += [{'op': 'unadopt', 'a': 'h0', 'b': 'u0'}]
+            for k in range(m):
+                ops += [{'op': 'drop', 'h': 'u%d' % k}]
+            add('adopted-%dx-then-unadopted(+%d) owner' % (m, extra_unadopt), ops + cost_all('h0', 'a') + [{'op': 'drop', 'h': 'h1'}], 2)
+            add('adopted-%dx-then-unadopted(+%d) target' % (m, extra_unadopt), ops + cost_all('h1', 'a') + [{'op': 'drop', 'h': 'h0'}], 2)
+    # (c) an object without adoptions stored inside members of an adopted ring
+    ring = F.named_shapes(2)['ring2']
+    ops = F.build_ops(2, ring, extras=True) + [{'op': 'new', 'obj': 2, 'as': 'hz'}, {'op': 'extras', 'h': 'hz', 'n': 'ez'},
+                                               {'op': 'clone', 'h': 'hz', 'as': 'tz'}, {'op': 'store', 'via': 'h0', 'h': 'tz'}]
+    add('inside-adopted-ring', ops + cost_all('hz', 'z') + [{'op': 'drop', 'h': 'h0'}, {'op': 'drop', 'h': 'h1'}], 3)
+    # (d) self adoption through a clone, then unadopted
+    ops = [{'op': 'new', 'obj': 0, 'as': 'h0'}, {'op': 'extras', 'h': 'h0', 'n': 'e0'}, {'op': 'clone', 'h': 'h0', 'as': 't'}, {'op': 'adopt', 'a': 'h0', 'b': 't'},
+           {'op': 'store', 'via': 'h0', 'h': 't'}, {'op': 'take', 'via': 'h0', 'slot': 0, 'as': 'u'}, {'op': 'unadopt', 'a': 'h0', 'b': 'u'}, {'op': 'drop', 'h': 'u'}]
+    add('self-adopted-then-unadopted', ops + cost_all('h0', 'a'), 1)
+    ops = [{'op': 'new', 'obj': 0, 'as': 'h0'}, {'op': 'extras', 'h': 'h0', 'n': 'e0'}, {'op': 'adopt', 'a': 'h0', 'b': 'h0'}, {'op': 'unadopt', 'a': 'h0', 'b': 'h0'}]
+    add('same-handle-adopted-then-unadopted', ops + cost_all('h0', 'a'), 1)
+    # vacuity witness: an object WITH a recorded adoption must be seen to trace
+    ops = F.build_ops(2, ring, extras=True) + [{'op': 'cost_clone', 'h': 'h0', 'as': 'cc'}, {'op': 'cost_drop', 'h': 'cc'}]
+    add('witness:adopted-object-traces', ops, 2, witness=True)
+    return items
+
+
+PROPS['C14'] = dict(items=items_C14, bounds={'quick': {'states': 'never adopted; adopted 1..2 times and fully unadopted (also one unadopt too many), as owner and as target; unadopted object stored inside an adopted ring; self adoption (clone / same handle) then unadopt', 'calls': 'clone, drop of the clone, drop of the named handle (may be the last)', 'counters': 'extras e_j, w_j symbolic 64-bit', 'events': 'calls of cycle_refs / orphaned_cycle and allocation events (Global.allocate, Box, Vec growth, first insertion into a table) in the frames of the call under test; nested drops of handles stored in a destroyed value are excluded'},
+                                             'thorough': {'states': 'adopted up to 3 times'}},
+                    outside=OUTSIDE, vacuity=vac_paths(), replay_oracles=['C14'])
+
+
+# ------------------------------------------------------------------ C15 iterative and linear
+def items_C15(tier, seed, P):
+    items = []
+
+    def post_path(sc, out, res):
+        E = sc.E
+        ex = res['extra'].setdefault('c15', dict(max_depth=0, rc_depth=0, traces=0, expansions=0, pops=0, entries=0))
+        ex['max_depth'] = max(ex['max_depth'], E.max_depth)
+        ex['rc_depth'] = max(ex['rc_depth'], E.max_rc_drop_depth)
+        tr = E.call_counts.get('cycle_refs', 0)
+        ex['traces'] = max(ex['traces'], tr)
+        if tr:
+            ex['expansions_per_trace'] = max(ex.get('expansions_per_trace', 0), E.summary_counts.get('HashSet::insert', 0) / tr)
+            ex['pops_per_trace'] = max(ex.get('pops_per_trace', 0), E.summary_counts.get('Vec::pop', 0) / tr)
+    fams = {}
+    top = 4 if tier == 'quick' else 6
+    for n in range(1, top + 1):
+        R = lambda i, j: (i, j, True, False)
+        fams.setdefault('ring', []).append((n, [R(i, (i + 1) % n) for i in range(n)]))
+        if n >= 2:
+            fams.setdefault('clique', []).append((n, [R(i, j) for i in range(n) for j in range(n) if i != j]))
+        if n >= 3:
+            fams.setdefault('ring+chord', []).append((n, [R(i, (i + 1) % n) for i in range(n)] + [R(0, 2)]))
+        fams.setdefault('ring+selfclone', []).append((n, [R(i, (i + 1) % n) for i in range(n)] + [(0, 0, True, False)]))
+    for fam, lst in fams.items():
+        for (n, e) in lst:
+            ops = F.build_ops(n, e, extras=False) + F.drop_ops([('h', i) for i in range(n)])
+            items.append(dict(prop='C15', name='%s N=%d' % (fam, n), script={'ops': ops}, sym=False, oracles={'C03'}, accept_props=['C15'],
+                              opts={'panics_ok': True}, layouts=[None, ('rank', tuple(range(n)), (0, 1, 2), 'obj', True)], post_path=post_path,
+                              tags=[fam, n]))
+    return items
+
+
+def finish_C15(tier, seed, P, native, results, scratch):
+    import subprocess, re
+    fam = {}
+    viol = []
+    for r in results:
+        m = re.match(r'(.*) N=(\d+)$', r['name'])
+        if not m or 'c15' not in r.get('extra', {}):
+            continue
+        fam.setdefault(m.group(1), {})[int(m.group(2))] = r['extra']['c15']
+    table = {}
+    for f, d in fam.items():
+        ns = sorted(d)
+        table[f] = {n: dict(rc_drop_depth=d[n]['rc_depth'], frame_depth=d[n]['max_depth'], expansions_per_trace=d[n].get('expansions_per_trace', 0),
+                            pops_per_trace=d[n].get('pops_per_trace', 0)) for n in ns}
+        big = [n for n in ns if n >= 2]
+        for a, b in zip(big, big[1:]):
+            if d[b]['rc_depth'] > d[a]['rc_depth'] or d[b]['max_depth'] > d[a]['max_depth']:
+                viol.append(dict(prop='C15', clause='depth-grows', name='%s N=%d' % (f, b), model={}, layout=None, tags=[f],
+                                 detail='nesting depth grows with the size of the group: %s N=%d has Rc::drop depth %d / frame depth %d, N=%d has %d / %d'
+                                 % (f, a, d[a]['rc_depth'], d[a]['max_depth'], b, d[b]['rc_depth'], d[b]['max_depth']),
+                                 script={'ops': []}, stack=[], trace=[], subject=None, rec_same={}, opts=None, scale_family=f))
+        for n in ns:
+            if d[n].get('expansions_per_trace', 0) > 2 * n + 0.001:
+                viol.append(dict(prop='C15', clause='visits-grow', name='%s N=%d' % (f, n), model={}, layout=None, tags=[f],
+                                 detail='a trace of %s N=%d expands %.1f objects (more than 2 per object)' % (f, n, d[n]['expansions_per_trace']),
+                                 script={'ops': []}, stack=[], trace=[], subject=None, rec_same={}, opts=None, scale_family=f))
+    # native confirmation at scale: a ring of 200 000 objects on a 128 KiB stack, and time ratio N vs 2N
+    scale = {}
+    for n in (100000, 200000):
+        try:
+            pr = subprocess.run([native.bin, '--ring', str(n), '128'], capture_output=True, text=True, timeout=600)
+            m = re.search(r'ring ok n=(\d+) destroyed=(\d+) ms=(\d+)', pr.stdout)
+            scale[n] = dict(rc=pr.returncode, destroyed=int(m.group(2)) if m else None, ms=int(m.group(3)) if m else None)
+        except subprocess.TimeoutExpired:
+            scale[n] = dict(rc='timeout', destroyed=None, ms=None)
+    bad = None
+    for n, s in scale.items():
+        if s['rc'] != 0 or s['destroyed'] != n:
+            bad = 'ring of %d objects on a 128 KiB stack: rc=%s destroyed=%s' % (n, s['rc'], s['destroyed'])
+    if not bad and scale[100000]['ms'] and scale[200000]['ms'] and scale[200000]['ms'] > 4.0 * max(scale[100000]['ms'], 50):
+        bad = 'time is not linear: %d ms for 100000 objects, %d ms for 200000' % (scale[100000]['ms'], scale[200000]['ms'])
+    if bad:
+        viol.append(dict(prop='C15', clause='scale', name='native ring at scale', model={}, layout=None, tags=[], detail=bad, script={'ops': []}, stack=[], trace=[],
+                         subject=None, rec_same={}, opts=None, confirmed_by='native scale run: ' + bad, concrete={'ops': [{'op': 'note'}]}))
+    for v in viol:
+        if v['clause'] != 'scale':
+            # a growth measured by the solver-side exploration is confirmed by the native scale run
+            v['confirmed_by'] = ('native scale run: ' + bad) if bad else None
+    return dict(violations=[v for v in viol], depth_table=table, native_scale=scale)
+
+
+PROPS['C15'] = dict(items=items_C15, finish=finish_C15,
+                    bounds={'quick': {'solver_side': 'rings, cliques, rings with a chord, rings with a self adoption of N = 1..4: maximum nesting depth of Rc::drop frames and of interpreter frames must not grow with N; objects expanded per trace <= 2N', 'native_side': 'ring of 100 000 and 200 000 objects collected on a thread with a 128 KiB stack; time ratio'},
+                            'thorough': {'solver_side': 'N = 1..6'}},
+                    outside=OUTSIDE + ['sizes beyond N=4 (6) are covered only by the native scale run, which is a confirmation, not a solver verdict'],
+                    vacuity=vac_paths(), replay_oracles=['C15'])
+
+
+# ------------------------------------------------------------------ adopt / unadopt histories (pair multiplicities)
+def history_items(prop, tier, seed, oracles, opts=None, accept=None, relabel=False, obs=False):
+    """owner 0 records m adoptions of target 1 (m handles stored), then u of them are removed again in one of three
+    ways; target optionally sits in a ring with object 2, or owner and target form a ring; then a non-last handle of
+    every object is dropped (trace), then the named handles in every order"""
+    items = []
+    maxm = 2 if tier == 'quick' else 3
+    ctxs = ['pair', 'target-in-ring', 'owner-target-ring', 'self']
+    for ctx in ctxs:
+        n = {'pair': 2, 'target-in-ring': 3, 'owner-target-ring': 2, 'self': 1}[ctx]
+        tgt = 0 if ctx == 'self' else 1
+        for m in range(1, maxm + 1):
+            for u in range(0, m + 2):
+                for mode in ('remove', 'unadopt-only'):
+                    if u == 0 and mode != 'remove':
+                        continue
+                    if u == m + 1 and mode == 'unadopt-only':
+                        continue
+                    ops = [{'op': 'new', 'obj': i, 'as': H(i)} for i in range(n)]
+                    ops += [{'op': 'extras', 'h': H(i), 'n': 'e%d' % i} for i in range(n)]
+                    if ctx == 'target-in-ring':
+                        ops += [{'op': 'clone', 'h': H(2), 'as': 'r0'}, {'op': 'adopt', 'a': H(1), 'b': 'r0'}, {'op': 'store', 'via': H(1), 'h': 'r0'},
+                                {'op': 'clone', 'h': H(1), 'as': 'r1'}, {'op': 'adopt', 'a': H(2), 'b': 'r1'}, {'op': 'store', 'via': H(2), 'h': 'r1'}]
+                    if ctx == 'owner-target-ring':
+                        ops += [{'op': 'clone', 'h': H(0), 'as': 'r0'}, {'op': 'adopt', 'a': H(1), 'b': 'r0'}, {'op': 'store', 'via': H(1), 'h': 'r0'}]
+                    base_slots = 1 if ctx == 'target-in-ring' and tgt == 0 else 0
+                    for k in range(m):
+                        ops += [{'op': 'clone', 'h': H(tgt), 'as': 'a%d' % k}, {'op': 'adopt', 'a': H(0), 'b': 'a%d' % k}, {'op': 'store', 'via': H(0), 'h': 'a%d' % k}]
+                    for k in range(u):
+                        if k < m and mode == 'remove':
+                            ops += [{'op': 'take', 'via': H(0), 'slot': 0, 'as': 'x%d' % k}, {'op': 'unadopt', 'a': H(0), 'b': 'x%d' % k}, {'op': 'drop', 'h': 'x%d' % k}]
+                        else:
+                            # unadopt without giving the handle up (or one unadopt too many)
+                            ops += [{'op': 'clone', 'h': H(tgt), 'as': 'y%d' % k}, {'op': 'unadopt', 'a': H(0), 'b': 'y%d' % k}, {'op': 'drop', 'h': 'y%d' % k}]
+                    if obs:
+                        for i in range(n):
+                            ops.append({'op': 'downgrade', 'h': H(i), 'as': 'ow%d' % i})
+                    # a non-last handle of each object is dropped: runs the trace while everything is still held
+                    for i in range(n):
+                        ops += [{'op': 'clone', 'h': H(i), 'as': 'c%d' % i}, {'op': 'drop', 'h': 'c%d' % i}]
+                    for seq in F.drop_sequences(n, n):
+                        o2 = list(ops)
+                        for (kk, i) in seq:
+                            o2 += F.drop_ops([(kk, i)])
+                            if obs:
+                                for j in range(n):
+                                    o2 += [{'op': 'upgrade', 'w': 'ow%d' % j}, {'op': 'w_strong_count', 'w': 'ow%d' % j}]
+                        it = dict(prop=prop, name='hist %s m=%d u=%d %s drops=%s' % (ctx, m, u, mode, ''.join('%s%d' % q for q in seq)), script={'ops': o2},
+                                  sym=True, oracles=set(oracles), opts=dict(opts or {}), layouts=std_layouts(n, tier, seed)[:2 if tier == 'quick' else 4])
+                        if accept:
+                            it['accept_props'] = accept
+                            it['relabel'] = relabel
+                        items.append(it)
+    return items
+
+
+def mult_items(prop, tier, seed, oracles, opts=None, wextras=False):
+    """N=2 and N=3 shapes with parallel (doubled) recorded edges: part of the quick tier"""
+    items = []
+    R = lambda i, j: (i, j, True, False)
+    U = lambda i, j: (i, j, False, False)
+    sh = [(2, [R(0, 1), R(0, 1)], 'N2[0=>1 x2]'), (2, [R(0, 1), R(0, 1), R(1, 0)], 'N2[0=>1 x2, 1=>0]'), (2, [R(0, 1), R(0, 1), R(1, 0), R(1, 0)], 'N2[0<=>1 x2]'),
+          (1, [(0, 0, True, False), (0, 0, True, False)], 'N1[0=>0 x2]'), (2, [R(0, 1), U(0, 1), R(1, 0)], 'N2[0=>1 +unrecorded, 1=>0]'),
+          (3, [R(0, 1), R(0, 1), R(1, 2), R(2, 1)], 'N3[tail 0=>1 x2 into ring 1<=>2]'), (3, [R(0, 1), R(1, 2), R(1, 2), R(2, 0)], 'N3[ring with doubled edge]'),
+          (3, [R(0, 1), R(0, 1), R(1, 0), R(1, 2)], 'N3[ring2 doubled + tail]')]
+    for (n, e, nm) in sh:
+        base = F.build_ops(n, e, extras=True, wextras=wextras)
+        for seq in F.drop_sequences(n, n):
+            items.append(dict(prop=prop, name='%s drops=%s' % (nm, ''.join('%s%d' % q for q in seq)), script={'ops': list(base) + F.drop_ops(seq)}, sym=True,
+                              oracles=set(oracles), opts=dict(opts or {}), layouts=std_layouts(n, tier, seed)[:3 if tier == 'quick' else 6]))
+    return items
